@@ -140,6 +140,21 @@ def runWith (rh : Decide) (auth : Bool) (modes : Nat → Mode) : State → List 
 def run := runWith requestheaders
 def runOld := runWith (fun a m s _ => requestheadersOld a m s)
 
+/-- client replay (clientplayback.ReplayHandler + UpstreamAuth.proxy_mode): a recorded request does not re-enter through
+    the listener it was recorded on; it is routed — and the credential decided — by the mode the instance RUNS in
+    (the recorded client connection's proxy mode is not an argument).  `toTarget`: the request's own (host, port) is the
+    reverse-mode target. -/
+def replayWrites (auth : Bool) (run : Mode) (https toTarget : Bool) : List Write :=
+  match run with
+  | .upstream =>
+    if https then [⟨.proxy, .connect, false, connectUpstream auth⟩,
+                   ⟨.originViaTunnel, .request, true, requestheaders auth .upstream false false⟩]
+    else [⟨.proxy, .request, false, requestheaders auth .upstream true false⟩]
+  | .reverse =>
+    [⟨if toTarget then .reverseTarget else .originDirect, .request, https,
+      if auth && toTarget then some .authorization else none⟩]
+  | _ => [⟨.originDirect, .request, https, none⟩]
+
 /-- histories in which `upstream_auth` is changed at runtime: every event carries the option's state when it arrives -/
 def runVar (modes : Nat → Mode) : State → List (Nat × Bool × Ev) → List (Nat × Kind × List Write)
   | _, [] => []
